@@ -384,3 +384,15 @@ Proof.
   split; [vm_compute; reflexivity|]. split; [vm_compute; reflexivity|].
   split; [vm_compute; reflexivity|]. vm_compute. auto.
 Qed.
+
+(* term monotonicity: a non-trivial instance of the hypotheses *)
+Definition ex_mono1 : list event := boot3 ++ [ETick 1 50 0 30 [] 0].
+Definition ex_mono2 : list event := [EDeliver 1 2 60 0 []; ETick 1 200 0 30 [] 0; EKill 2].
+Definition em1 : gstate := match run_trace cfg_mem ginit ex_mono1 with Some g => g | None => ginit end.
+Definition em2 : gstate := match run_trace cfg_mem em1 ex_mono2 with Some g => g | None => ginit end.
+
+Example ex_term_monotone :
+  run_trace cfg_mem ginit ex_mono1 = Some em1 /\ run_trace cfg_mem em1 ex_mono2 = Some em2 /\
+  no_restart_of 1 ex_mono2 = true /\
+  option_map term (aget 1 (nodes em1)) = Some 1 /\ option_map term (aget 1 (nodes em2)) = Some 2.
+Proof. repeat (split; [vm_compute; reflexivity|]). vm_compute; reflexivity. Qed.
